@@ -198,6 +198,16 @@ func c05Decode(buf []byte) c05Bytes {
 }
 
 func c05CoqKey(k string) string {
+	switch k {
+	case "/v/a1":
+		return "Ka"
+	case "/v/b1":
+		return "Kb"
+	case "/v/c2":
+		return "Kc"
+	case "/w/a1":
+		return "Kw"
+	}
 	it := make([]string, len(k))
 	for i := 0; i < len(k); i++ {
 		it[i] = fmt.Sprintf("%d", k[i])
@@ -1087,22 +1097,27 @@ func c05Abort(cs *vfCases) {
 // ---- exhaustive small scope ---------------------------------------------------------------------------
 
 // c05Enumerate runs every schedule of the given calls (all spawn / release
-// orders) by depth-first search over the choice vector.
-func c05Enumerate(t *testing.T, cs *vfCases, base c05Spec, graceUs int64, meta func() map[string]any, limit int) int {
+// orders) by depth-first search over the choice vector.  The k-th schedule gets
+// case index first+k; with only >= 0 just that one is emitted.
+func c05Enumerate(t *testing.T, cs *vfCases, base c05Spec, graceUs int64, seed uint64, cfg int, first int, only int, limit int) int {
 	var prefix []int
 	n := 0
 	for {
 		spec := base
 		spec.Choices = append([]int(nil), prefix...)
 		r := c05Exec(t, spec, graceUs)
-		if r.fail != "" && strings.HasPrefix(r.fail, "deadlock") || strings.HasPrefix(r.fail, "a goroutine") {
-			c05Emit(cs, r, meta())
-			c05Abort(cs)
-		}
 		r.spec.Choices = make([]int, len(r.nchoices))
 		copy(r.spec.Choices, prefix)
-		c05Emit(cs, r, meta())
+		if only < 0 || only == first+n {
+			c05Emit(cs, r, map[string]any{"case": first + n, "seed": seed, "mode": "exhaustive", "config": cfg})
+		}
+		if strings.HasPrefix(r.fail, "deadlock") || strings.HasPrefix(r.fail, "a goroutine") {
+			c05Abort(cs)
+		}
 		n++
+		if only == first+n-1 {
+			return n
+		}
 		// next choice vector: increment the last position that can be incremented
 		full := make([]int, len(r.nchoices))
 		copy(full, prefix)
@@ -1119,12 +1134,17 @@ func c05Enumerate(t *testing.T, cs *vfCases, base c05Spec, graceUs int64, meta f
 	}
 }
 
+const (
+	c05ExhBase   = 1000000 // case indices of the exhaustive part start here
+	c05ExhStride = 5000    // ... and each configuration owns this many
+)
+
 func TestVerifC05(t *testing.T) {
 	seed := vfSeed()
 	n := vfEnvInt("VERIF_N", 300)
 	only := vfOnly()
 	graceUs := int64(vfEnvInt("VERIF_C05_GRACE_US", 300))
-	cs := vfNewCases("Run_C05", 100)
+	cs := vfNewCases("Run_C05", 400)
 	root := vfNewRand(seed)
 	for i := 0; i < n; i++ {
 		r := root.Fork()
@@ -1138,7 +1158,7 @@ func TestVerifC05(t *testing.T) {
 			c05Abort(cs)
 		}
 	}
-	if vfThorough() && only < 0 {
+	if (vfThorough() && only < 0) || only >= c05ExhBase {
 		// all interleavings of two writers and one reader on one key, for every
 		// combination of record kinds and stored record
 		k := c05Keys[0]
@@ -1151,6 +1171,9 @@ func TestVerifC05(t *testing.T) {
 					for _, reader := range []string{"hget", "lput", "gc"} {
 						for _, wkind := range []string{"hput", "lput"} {
 							cfg++
+							if only >= 0 && (only-c05ExhBase)/c05ExhStride != cfg {
+								continue
+							}
 							spec := c05Spec{MaxAge: c05Hour}
 							switch stored {
 							case "live":
@@ -1174,10 +1197,7 @@ func TestVerifC05(t *testing.T) {
 							case "gc":
 								spec.Calls = append(spec.Calls, c05Call{Kind: "gc"})
 							}
-							c := cfg
-							total += c05Enumerate(t, cs, spec, graceUs, func() map[string]any {
-								return map[string]any{"case": -1, "seed": seed, "mode": "exhaustive", "config": c}
-							}, 5000)
+							total += c05Enumerate(t, cs, spec, graceUs, seed, cfg, c05ExhBase+cfg*c05ExhStride, only, c05ExhStride)
 						}
 					}
 				}
